@@ -21,6 +21,7 @@ type Variant struct {
 	Name     string
 	VLimitKB int64    // ulimit -v for the child (0 = none)
 	Env      []string // extra environment
+	Race     bool     // run this variant's children from the -race build
 }
 
 // Engine describes one property monitor.
